@@ -19,7 +19,8 @@ mkdir -p $vc
 sed -i "s#=> /repo#=> $wt#" $vc/harness/go.mod
 for c in "$@"; do
   out=$(cd $vc && VERIF_REPO=$wt timeout 3000 ./check $c quick 2>&1 | grep -v "^WARNING"); rc=$?
-  first=$(echo "$out" | grep -m1 -A1 "^VIOLATION\|^OK\|^KNOWN" | tr '\n' ' ' | cut -c1-330)
+  first=$(echo "$out" | grep -m1 -A1 "^VIOLATION" | tr '\n' ' ' | cut -c1-330)
+  [ -z "$first" ] && first=$(echo "$out" | grep -m1 "^OK\|^KNOWN" | cut -c1-330)
   rc=$(echo "$out" | grep -q "^VIOLATION" && echo 1 || echo 0)
   echo "$s $c exit=$rc $first" | tee -a /tmp/pm/results.txt
 done
